@@ -31,10 +31,13 @@ const (
 
 const c10OffUser = "user9"
 
+// the user of the senders that are clients (states 1, 2, 5, 8); internal clients have no user id
+const c10SelfUser = "user1"
+
 const c10RoomId = "424242"
 
 type c10Step struct {
-	St    int    `json:"st"`
+	St    int    `json:"st"` // 0-5 see c10Fix.ensure; 7 resume step; 8 client in the room without the permission to send control messages
 	K     string `json:"k"` // doc, bad, bin, over, opaque; resume: no frame of the sender - the session without connection resumes (St 7)
 	Doc   *vj    `json:"doc,omitempty"`
 	Raw   string `json:"raw,omitempty"` // base64 of the frame (bad, bin, over, opaque); placeholders are substituted after decoding
@@ -49,6 +52,8 @@ type c10Step struct {
 	DSame   bool     `json:"dsame,omitempty"`
 	Api     int      `json:"api,omitempty"`
 	Off     int      `json:"off,omitempty"` // messages added to the queue of the session without connection
+	Live    bool     `json:"live,omitempty"` // after the frame the hub still serves: a bystander's request and a new connection within the bound
+	LiveNote string  `json:"livenote,omitempty"`
 	Orc     []string `json:"orc,omitempty"`
 	Panic   string   `json:"panic,omitempty"`
 }
@@ -224,11 +229,11 @@ func (s *c10Step) coqInput() string {
 
 func (s *c10Step) coq() string {
 	if s.K == "opaque" || s.K == "resume" {
-		return fmt.Sprintf("mkopaque %d (mkobs %s %s %s %s %s %s %s %s)", s.St, coqBool(s.Alive), coqList(s.Replies),
-			coqBool(s.Closed), coqList(s.By), coqBool(s.ByOk), coqBool(s.DSame), coqZ(int64(s.Api)), coqZ(int64(s.Off)))
+		return fmt.Sprintf("mkopaque %d (mkobs %s %s %s %s %s %s %s %s %s)", s.St, coqBool(s.Alive), coqList(s.Replies),
+			coqBool(s.Closed), coqList(s.By), coqBool(s.ByOk), coqBool(s.DSame), coqZ(int64(s.Api)), coqZ(int64(s.Off)), coqBool(s.Live))
 	}
-	return fmt.Sprintf("mkstep %d %s (mkobs %s %s %s %s %s %s %s %s)", s.St, s.coqInput(), coqBool(s.Alive), coqList(s.Replies),
-		coqBool(s.Closed), coqList(s.By), coqBool(s.ByOk), coqBool(s.DSame), coqZ(int64(s.Api)), coqZ(int64(s.Off)))
+	return fmt.Sprintf("mkstep %d %s (mkobs %s %s %s %s %s %s %s %s %s)", s.St, s.coqInput(), coqBool(s.Alive), coqList(s.Replies),
+		coqBool(s.Closed), coqList(s.By), coqBool(s.ByOk), coqBool(s.DSame), coqZ(int64(s.Api)), coqZ(int64(s.Off)), coqBool(s.Live))
 }
 
 func (c *c10Case) coq(fixDialout, fixLabel bool) string {
@@ -419,6 +424,8 @@ func c10Bases() []c10Base {
 		{"transient-remove", c10Msg("t1", "transient", kv("transient", jo(kv("type", js("remove")), kv("key", js("k1"))))), cl},
 		{"transient-other", c10Msg("t1", "transient", kv("transient", jo(kv("type", js("get"))))), cl},
 		{"unknown-type", c10Msg("u1", "foo"), cl},
+		// appended (the bases above are referred to by index)
+		{"control-session-self", message("control", c10Recipient("session", kv("sessionid", js(c10Sid))), plain), cl},
 	}
 }
 
@@ -645,6 +652,42 @@ func (g *c10Gen) enumerate(maxDepth int) {
 			for _, kind := range []string{"message", "control"} {
 				g.items = append(g.items, c10Item{"store-any/" + kind + "/" + s.name + "/" + rc.n, c10Msg("s3", kind, kv(kind, jo(kv("recipient", rc.v), kv("data", s.v)))), []int{2, 1, 3}})
 				g.hist["offline_recipient"]++
+			}
+		}
+	}
+	// Frames that address the sender itself: its own session id, its own user id, its room / call,
+	// in both kinds that have a recipient, from senders with and without the right to send control
+	// messages (state 8: in the room, permissions without "control").  The server drops them
+	// ("Don't loop messages to the sender") - on an early exit of the handler, next to the look-up
+	// of the recipient in the hub's tables.
+	selfRcpts := []struct {
+		n string
+		v *vj
+	}{{"session", c10Recipient("session", kv("sessionid", js(c10Sid)))},
+		{"session-userid-too", c10Recipient("session", kv("sessionid", js(c10Sid)), kv("userid", js(c10SelfUser)))},
+		{"user", c10Recipient("user", kv("userid", js(c10SelfUser)))},
+		{"user-sessionid-too", c10Recipient("user", kv("userid", js(c10SelfUser)), kv("sessionid", js(c10Sid)))},
+		{"room", c10Recipient("room")},
+		{"room-sessionid-too", c10Recipient("room", kv("sessionid", js(c10Sid)), kv("userid", js(c10SelfUser)))},
+		{"call", c10Recipient("call")},
+		{"session-not-quite", c10Recipient("session", kv("sessionid", js(c10Sid+" ")))}}
+	selfData := []c11Shape{{"plain", jo(kv("tag", ji(7)))}, {"null", jz()}, {"str", js("x")},
+		{"chat-refresh", data(kv("type", js("chat")), kv("chat", jo(kv("refresh", jb(true)))))},
+		{"offer", data(kv("type", js("offer")), kv("roomType", js("video")), kv("payload", jo(kv("type", js("offer")), kv("sdp", js(c10SdpText())))))},
+		{"unshare", data(kv("type", js("unshareScreen")), kv("roomType", js("screen")))},
+		{"sendoffer", data(kv("type", js("sendoffer")), kv("roomType", js("video")))}}
+	for _, kind := range []string{"control", "message"} {
+		for _, rc := range selfRcpts {
+			for di, s := range selfData {
+				home := []int{2, 8, 3, 1}
+				if di == 0 {
+					home = []int{2, 8, 3, 1, 4, 5}
+				}
+				if kind == "message" && di >= 4 && (rc.n == "session" || rc.n == "room" || rc.n == "call") {
+					continue // the media payloads x these recipients are in the class mcu/
+				}
+				g.items = append(g.items, c10Item{"self/" + kind + "/" + rc.n + "/" + s.name, c10Msg("o1", kind, kv(kind, jo(kv("recipient", rc.v), kv("data", s.v)))), home})
+				g.hist["self_addressed"]++
 			}
 		}
 	}
@@ -891,7 +934,7 @@ func c10RandomValue(r *vrng, depth int) *vj {
 	case n == 3:
 		return jf(int64(r.intn(40))-5, int64(r.intn(5))-2)
 	case n <= 5:
-		return js(pick(r, []string{"", "x", c10Sid, c10Bid, c10Pid, c10Room, "room", "session", "dialout", "status", "error", "1.0", "2.0", "internal", "set", "offer", c10Burl, c10Oid, "chat", c10OffUser}))
+		return js(pick(r, []string{"", "x", c10Sid, c10Bid, c10Pid, c10Room, "room", "session", "dialout", "status", "error", "1.0", "2.0", "internal", "set", "offer", c10Burl, c10Oid, "chat", c10OffUser, c10SelfUser}))
 	case n == 6 && depth > 0:
 		var l []*vj
 		for i := r.intn(3); i > 0; i-- {
@@ -947,6 +990,9 @@ func c10RandomItem(r *vrng) (c10Item, int) {
 	st := pick(r, b.states)
 	if r.chance(25) {
 		st = r.intn(6)
+	}
+	if st == 2 && r.chance(12) {
+		st = 8
 	}
 	if st == 4 && r.chance(50) && doc.K == "o" {
 		doc = doc.with("id", js(c10Pid))
